@@ -1,5 +1,6 @@
 import Proofs.HpMutPop
 import Proofs.HpMutGenEq
+import Proofs.PopGenEq
 
 /-!
 # C06 — hyperparameter mutation stays in its configured range and takes effect
@@ -372,6 +373,108 @@ theorem C06_source_translation_sample_total {κ ν : Type} (cfg : List (κ × ν
 
 end source_translation
 
+/-! ## the initial population: which configuration objects `create_population` / `population()` hand out
+
+`Pop.initialWith prov` is the population both functions build as far as hyper-parameter mutation is concerned: `n`
+identical agents that refer to ONE configuration object (`prov = .shared`: `hp_config=hp_config`, the code as it is)
+or to a private one each (`.perAgent`, e.g. `copy.deepcopy(hp_config)`).  Either way it satisfies the hypothesis `WF`
+of the refinement theorem `C06_uses_own_value`. -/
+
+/-- **Base case of the refinement, either sharing class.**  The initial population is well-formed, all members
+    look the same, and under the repaired semantics every history of mutations, clones, selections and checkpoint
+    round trips is the run of the cache-free specification on `n` independent agents. -/
+theorem C06_initial_population_configs (prov : CfgProv) (ps : List Param) (n : Nat) (attrs : List Rat)
+    (opts : List Opt) (ops : List Op) :
+    WF ps (Pop.initialWith prov ps n attrs opts) ∧
+    ((Pop.initialWith prov ps n attrs opts).run .own true ops).obs =
+      Spec.run ps (List.replicate n { attrs := attrs, opts := opts }) ops := by
+  refine ⟨wf_initialWith prov ps n attrs opts, ?_⟩
+  rw [C06_uses_own_value ps _ (wf_initialWith prov ps n attrs opts) ops, obs_initialWith]
+
+/-- which members share: one object for everybody, or nobody with anybody -/
+theorem C06_initial_population_sharing (prov : CfgProv) (ps : List Param) (n : Nat) (attrs : List Rat)
+    (opts : List Opt) :
+    (prov = .shared → ∀ a ∈ (Pop.initialWith prov ps n attrs opts).agents, a.cfg = 0) ∧
+    (prov = .perAgent → ((Pop.initialWith prov ps n attrs opts).agents.map (·.cfg)).Nodup) := by
+  constructor
+  · rintro rfl a ha
+    have := cfg_initialWith .shared ps n attrs opts
+    have hm : a.cfg ∈ (Pop.initialWith .shared ps n attrs opts).agents.map (·.cfg) := List.mem_map_of_mem ha
+    rw [this] at hm
+    exact (List.mem_replicate.mp hm).2
+  · rintro rfl
+    rw [cfg_initialWith]
+    exact List.nodup_range
+
+/-- the as-found semantics on the SHARED initial population is the witness `C06_cached_uses_foreign_value_witness`;
+    the same two mutations on a population with PRIVATE configuration objects are harmless even as found: sharing
+    is what made the cached value a neighbour's -/
+theorem C06_private_configs_cached_agrees_witness :
+    let p : Param := { lo := 1/100, hi := 100, shrink := 4/5, grow := 6/5, dtype := .float }
+    let ops := [Op.mutate 0 0 (3/4), Op.mutate 1 0 (3/4), Op.mutate 0 0 (3/4)]
+    ((Pop.initialWith .perAgent [p] 3 [1] []).run .cached true ops).obs =
+      ((Pop.initialWith .perAgent [p] 3 [1] []).run .own true ops).obs ∧
+    ((Pop.initialWith .shared [p] 3 [1] []).run .cached true ops).obs ≠
+      ((Pop.initialWith .shared [p] 3 [1] []).run .own true ops).obs := by
+  decide +kernel
+
+section source_translation_population
+
+/-! ### the same over the population translated from the source text
+
+`harness/py2lean_pop.py` translates `create_population` and `EvolvableAlgorithm.population` of the tree under test into
+`Gen/PopGen.lean`; every constructor argument of every member is a provenance term (`PopGen.Val`), `PopGen.Val.share`
+says how the objects that different members receive are related, `PopGen.cfgProv` reads the `hp_config` argument
+(`.shared` for a bare parameter / `d["k"]` of one, `.perAgent` for a `copy.deepcopy(…)`; `copy.copy`, `hp_config[idx]`,
+a conditional with different arms have NO reading, and the statements below stop checking). -/
+
+/-- **every branch of `create_population` hands out `hp_config` in a way the repaired semantics covers**: for every
+    algorithm name the function knows and every `population_size`, all members' `hp_config` arguments have one and
+    the same sharing class `prov`, the model population with that class has `population_size` members, is well-formed,
+    and every history from it refines the cache-free specification — i.e. the hypothesis `WF` of `C06_uses_own_value`
+    is discharged from the source text. -/
+theorem C06_source_translation_initial_population_configs (algo : String) (h : algo ∈ PopGen.algos) (n : Int)
+    (ps : List Param) (attrs : List Rat) (opts : List Opt) :
+    ∃ prov : CfgProv,
+      (PopGen.create_population algo n).map PopGen.cfgProv = List.replicate n.toNat (some prov) ∧
+      (PopGen.create_population algo n).length = (Pop.initialWith prov ps n.toNat attrs opts).agents.length ∧
+      WF ps (Pop.initialWith prov ps n.toNat attrs opts) ∧
+      ∀ ops : List Op, ((Pop.initialWith prov ps n.toNat attrs opts).run .own true ops).obs =
+        Spec.run ps (List.replicate n.toNat { attrs := attrs, opts := opts }) ops := by
+  obtain ⟨prov, hp⟩ := PopGen.gen_create_population_cfg algo h n
+  have hrep : (PopGen.create_population algo n).map PopGen.cfgProv = List.replicate n.toNat (some prov) := by
+    rw [hp, PopGen.map_const_pyRange]
+  refine ⟨prov, hrep, ?_, (C06_initial_population_configs prov ps n.toNat attrs opts []).1,
+    fun ops => (C06_initial_population_configs prov ps n.toNat attrs opts ops).2⟩
+  have hl := congrArg List.length hrep
+  have ho := congrArg List.length (obs_initialWith prov ps n.toNat attrs opts)
+  simp only [List.length_map, List.length_replicate, Pop.obs] at hl ho
+  omega
+
+/-- the classmethod `EvolvableAlgorithm.population(size, …, hp_config=…)` (the configuration travels in `**kwargs`) -/
+theorem C06_source_translation_population_classmethod_configs (wrapperGiven : Bool) (n : Int)
+    (ps : List Param) (attrs : List Rat) (opts : List Opt) :
+    ∃ prov : CfgProv,
+      (PopGen.population wrapperGiven n).map PopGen.cfgProv = List.replicate n.toNat (some prov) ∧
+      WF ps (Pop.initialWith prov ps n.toNat attrs opts) ∧
+      ∀ ops : List Op, ((Pop.initialWith prov ps n.toNat attrs opts).run .own true ops).obs =
+        Spec.run ps (List.replicate n.toNat { attrs := attrs, opts := opts }) ops := by
+  obtain ⟨prov, hp⟩ := PopGen.gen_population_cfg wrapperGiven n
+  refine ⟨prov, ?_, (C06_initial_population_configs prov ps n.toNat attrs opts []).1,
+    fun ops => (C06_initial_population_configs prov ps n.toNat attrs opts ops).2⟩
+  rw [hp, PopGen.map_const_pyRange]
+
+/-- **the generated sharing table is what Lean derives from the translated code**, and in the tree under test every
+    branch passes `hp_config` (and `net_config`, where the constructor takes one) as ONE object to every member — the
+    repair of the compounding defect is the semantics (`Sem.own`), not a private copy; a user-supplied `actor_network`
+    is one object for every member in every branch but GRPO's, which deep-copies it. -/
+theorem C06_source_translation_sharing_table :
+    PopGen.sharingTable = PopGen.derivedTable ∧
+    (∀ row ∈ PopGen.sharingTable, ∀ s, row.2.2.lookup "hp_config" = some s → PopGen.provOf s ≠ none) :=
+  ⟨PopGen.gen_sharing_table_eq, by decide +kernel⟩
+
+end source_translation_population
+
 /-! ## non-vacuity -/
 
 /-- default factors, `lr`-like float parameter and an integer `batch_size` with bounds 8..512 -/
@@ -420,5 +523,18 @@ example : HpMutGen.RLParameter.mutate exLr.lo exLr.hi exLr.shrink exLr.grow (toG
     = some (1/64, some (1/64)) := by decide +kernel
 example : HpMutGen.HyperparameterConfig.sample [("lr", exLr), ("batch_size", exBs)] [1, 0]
     = some ("batch_size", exBs) := by decide +kernel
+
+-- the initial population read off the translated `create_population`: every member's `hp_config` is the one shared
+-- object (HEAD), the model population for it, and a history on it
+example : (PopGen.create_population "TD3" 3).map PopGen.cfgProv = [some .shared, some .shared, some .shared] := by
+  decide +kernel
+example : (PopGen.population false 2).map PopGen.cfgProv = [some .shared, some .shared] := by decide +kernel
+example : Pop.initialWith .shared [exLr, exBs] 3 [1/1024, 64] [{ lr := 0, groups := [1/1024, 1/1024] }] = exPop := rfl
+example : ((Pop.initialWith .perAgent [exLr, exBs] 3 [1/1024, 64] []).agents.map (·.cfg)) = [0, 1, 2] := by
+  decide +kernel
+example :
+    (((Pop.initialWith .perAgent [exLr, exBs] 3 [1/1024, 64] []).run .own true
+        [.mutate 0 0 (3/4), .mutate 1 0 (3/4), .select [1, 1, 0], .mutate 0 0 (1/4)]).agents.map (·.attrs)) =
+      [[3/3200, 64], [3/2560, 64], [3/2560, 64]] := by decide +kernel
 
 end HpMut
